@@ -136,6 +136,20 @@ Hidden(f) == (IsSecret(f) /\ f.injected) => ~f.shown
 \* (hidden facts with scope "subset:<family>").
 Preserved(f) == ~f.panic /\ f.outcome = "accepted" /\ (~f.registered => f.kept)
 
+\* history fact [section, seq, outcome, same]: the result of Default() or of loading a file never depends on
+\* what the process (or the object) loaded before.  seq names the sequence run at the end of a section's
+\* cases, after hundreds of different files went through the component: "default-after-loads",
+\* "load-default-file-after-loads", "reload-on-used-object" (load A, then the default file, on one object),
+\* "load-twice" (A, something else, A again).  same: the saved form equals the reference taken before.
+OrderIndependent(f) == f.outcome = "accepted" /\ f.same
+
+\* save fact [mem, file, savers]: outcome of concurrent SaveJSON calls on a real Manager (spec/ConfigSave.tla
+\* is the model; the same predicate is its invariant NoLostUpdate).  Once every save has returned, if some
+\* save started after the last change, the file holds the current configuration.
+SaveOutcomeOK(f) ==
+    ((\A i \in DOMAIN f.savers : f.savers[i].returned) /\ (\E i \in DOMAIN f.savers : f.savers[i].startver = f.mem))
+        => f.file = f.mem
+
 (***************************************************************************)
 (* Abstract loader (the model ConfigMC checks the laws on).                *)
 (* A setting has a kind, a default and a valid range; a JSON value is one  *)
